@@ -44,6 +44,7 @@ Definition dispatch (area : N) (v : val) : N :=
   | 19%N => Modbus.C19Check.check_val v
   | 9%N => Auth.Model.check_val v
   | 15%N => C15Check.check_val v
+  | 115%N => C15Check.diag_val v   (* diagnosis only: which comparison fails first *)
   | 17%N => Serial.Model.check_val v
   | 10%N => Codec.Model.check_val10 v
   | 11%N => Codec.Model.check_val11 v
